@@ -38,6 +38,7 @@ ARITH = ("add", "sub", "mul", "truediv", "floordiv", "mod")
 CMP = ("eq", "ne", "lt", "le", "gt", "ge")
 ISOPS = ("is", "isnot", "isdistinct", "isnotdistinct")
 LIKES = ("like", "notlike", "ilike", "notilike")
+STROPS = ("contains", "startswith", "endswith", "icontains", "istartswith", "iendswith")
 BINOPS = ARITH + ("concat",) + CMP + ISOPS
 
 DIALECTS = ("sqlite", "postgresql", "mysql", "mariadb", "default")
@@ -72,7 +73,7 @@ def utype(u):
         return utype(u[1])
     if k == "concat":
         return "str"
-    if k in CMP or k in ISOPS or k in LIKES or k in ("between", "and", "or", "not", "in", "notin", "tin", "tnotin"):
+    if k in CMP or k in ISOPS or k in LIKES or k in STROPS or k in ("between", "and", "or", "not", "in", "notin", "tin", "tnotin"):
         return "bool"
     if k == "case":
         for _, r in u[2]:
@@ -95,7 +96,7 @@ def children(u):
         return []
     if k in BINOPS:
         return [u[1], u[2]]
-    if k in LIKES:
+    if k in LIKES or k in STROPS:
         return [u[1], u[2]]
     if k in ("neg", "not", "subq"):
         return [u[1]]
@@ -266,6 +267,10 @@ def to_sa(u, neutral=None):
         a, b = opd(1), opd(2)
         kw = {} if u[3] is None else {"escape": u[3]}
         return {"like": a.like, "notlike": a.not_like, "ilike": a.ilike, "notilike": a.not_ilike}[k](b, **kw)
+    if k in STROPS:
+        a, b = opd(1), opd(2)
+        kw = {} if u[3] is None else {"escape": u[3]}
+        return getattr(a, k)(b, **kw)
     if k == "neg":
         return -opd(1)
     if k == "not":
@@ -438,6 +443,14 @@ def ref_sql(u):
         esc = "" if u[3] is None else " ESCAPE " + sql_str(u[3])
         core = "(%s LIKE %s%s)" % (a, b, esc)
         return core if k in ("like", "ilike") else "(NOT %s)" % core
+    if k in STROPS:
+        a, b = r(u[1]), r(u[2])
+        if k.startswith("i"):
+            a, b = "lower(%s)" % a, "lower(%s)" % b
+        base = k.lstrip("i") if k.startswith("i") else k
+        pat = {"contains": "('%%' || %s || '%%')", "startswith": "(%s || '%%')", "endswith": "('%%' || %s)"}[base] % b
+        esc = "" if u[3] is None else " ESCAPE " + sql_str(u[3])
+        return "(%s LIKE %s%s)" % (a, pat, esc)
     if k == "not":
         return "(NOT %s)" % r(u[1])
     if k == "between":
@@ -505,7 +518,7 @@ def wire(u):
         return [k]
     if k in BINOPS:
         return [k] + wire(u[1]) + wire(u[2])
-    if k in LIKES:
+    if k in LIKES or k in STROPS:
         return [k, "N" if u[3] is None else enc_str(u[3])] + wire(u[1]) + wire(u[2])
     if k in ("neg", "not", "subq"):
         return [k] + wire(u[1])
@@ -830,6 +843,8 @@ class TreeGen:
                 return [r.choice(ISOPS), self.expr(t, d), self.expr(t, d)]
             if k == "like":
                 esc = r.choice([None, None, "/", "!"])
+                if r.random() < 0.45:
+                    return [r.choice(STROPS), self.expr("str", d), self.expr("str", d), esc]
                 return [r.choice(LIKES), self.expr("str", d), self.expr("str", d), esc]
             if k == "between":
                 if r.random() < self.exotic * 3:
@@ -891,7 +906,9 @@ class TreeGen:
 OPS = ["add", "sub", "mul", "truediv", "floordiv", "mod", "neg", "concat_op", "eq", "ne", "lt", "le", "gt", "ge",
        "is_", "is_not", "is_distinct_from", "is_not_distinct_from", "like_op", "not_like_op", "ilike_op",
        "not_ilike_op", "between_op", "not_between_op", "in_op", "not_in_op", "and_", "or_", "inv", "is_true",
-       "is_false", "comma_op", "_asbool"]
+       "is_false", "comma_op", "_asbool", "contains_op", "not_contains_op", "startswith_op", "not_startswith_op",
+       "endswith_op", "not_endswith_op", "icontains_op", "not_icontains_op", "istartswith_op", "not_istartswith_op",
+       "iendswith_op", "not_iendswith_op"]
 
 
 def lean_op(name):
